@@ -253,6 +253,10 @@ func judge(in *instance, twin map[int]map[string]bool) (string, []finding, map[s
 	}
 
 	// -- sharing: every subscribe frame travelled on a connection whose handshake equals its own options
+	shareWS, shareSSE := "ws", "sse"
+	if sc.ShareClass != "" {
+		shareWS, shareSSE = sc.ShareClass, sc.ShareClass
+	}
 	var connParts []string
 	for _, c := range u.conns {
 		var names []string
@@ -264,7 +268,7 @@ func judge(in *instance, twin map[int]map[string]bool) (string, []finding, map[s
 			st := in.subs[sb.Sub]
 			names = append(names, st.spec.Name)
 			if got, want := c.handshake(), st.opt.handshake(); got != want {
-				add(clShare, "subscription multiplexed onto a connection with a different handshake", "ws",
+				add(clShare, "subscription multiplexed onto a connection with a different handshake", shareWS,
 					"%s (options %s) was subscribed on connection %d with handshake %s", st.spec.Name, want, c.K, got)
 			}
 		}
@@ -288,7 +292,7 @@ func judge(in *instance, twin map[int]map[string]bool) (string, []finding, map[s
 		if s.Sub >= 0 && s.Sub < len(in.subs) {
 			st := in.subs[s.Sub]
 			if got, want := s.handshake(), st.opt.handshake(); got != want {
-				add(clShare, "SSE request with a different endpoint, method or headers", "sse", "%s (options %s) was requested as %s", st.spec.Name, want, got)
+				add(clShare, "SSE request with a different endpoint, method or headers", shareSSE, "%s (options %s) was requested as %s", st.spec.Name, want, got)
 			}
 		}
 		state := "open"
